@@ -286,6 +286,10 @@ def check(pid, tier, seed):
             for fp, fj in r["failures"]:
                 if fp == pid:
                     failing.append(fj)
+                elif fp == "*" and isinstance(fj, dict):
+                    # a panic inside the crate that escaped the suite (harness exit 3): a failing input
+                    # for the property being checked
+                    failing.append(dict(fj, signature=f"{pid}:{fj.get('signature', 'crate-panics')}", suite=suite))
             # coverage floors: a family of inputs that past seeded changes needed must still be produced
             if not r["error"]:
                 for k, m in FLOORS.get(suite, {}).items():
@@ -425,6 +429,16 @@ def replay(path):
     print(json.dumps({k: v for k, v in payload.items() if k != "more_cases"}, indent=1)[:6000])
     case = payload.get("case") or {}
     hist = (case.get("replay") or {}).get("history") or []
+    rerun = (case.get("replay") or {}).get("rerun")
+    if rerun:
+        with Lock():
+            cb = cargo_build()
+        args = rerun.split(" ")[1:]
+        p = subprocess.run([HBIN] + args, env=ENV, stdout=subprocess.PIPE, stderr=subprocess.PIPE, text=True, timeout=3000)
+        print(f"--- rerun {rerun}: exit {p.returncode}")
+        for line in p.stdout.split("\n"):
+            if line.startswith("X\t") or line.startswith("F\t*"):
+                print(line[:2000])
     forest = [h for h in hist if re.match(r"^(reset|cons|new|parse|xml_id|append|prepend|insert_|detach|remove|replace|unwrap|wrap|clone|any_append|append_|map_|set_|text_content_set|strip_ws|dump|inv|removed)", h)]
     if forest:
         with Lock():
